@@ -61,16 +61,16 @@ func coqLres(e *m.RoutingTableEntry, isDst bool) string {
 }
 
 type c11World struct {
-	c       *Ctx
-	tbl     *m.RoutingTable
-	cfg     m.RoutingTableConfig
-	self    netip.Addr
-	peers   []netip.Addr
-	dsts    []netip.Addr
-	relays  []netip.Addr
-	steps   []string
-	desc    []string
-	alive   map[netip.Addr]bool // peers that currently have a peer route (by our bookkeeping)
+	c      *Ctx
+	tbl    *m.RoutingTable
+	cfg    m.RoutingTableConfig
+	self   netip.Addr
+	peers  []netip.Addr
+	dsts   []netip.Addr
+	relays []netip.Addr
+	steps  []string
+	desc   []string
+	alive  map[netip.Addr]bool // peers that currently have a peer route (by our bookkeeping)
 }
 
 func (w *c11World) violate(what, key string) {
